@@ -413,7 +413,7 @@ P = {
     "required_classes": _CLASSES,
     "signature": c17_sig,
     "corrupt": c17_corrupt,
-    "level_text": "The visiting protocol of duke's class reader is specified as a machine with the stream cursor explicit (ReadHeader, ReadPool, SkipMembers remembering fields_start, one step per class attribute in file order - delivered if the visitor's interest flag is set, skipped by attribute_length otherwise, BootstrapMethods parsed regardless - SeekBack, one step per field / method with skip_attributes for a declined member and the Code body skipped for a declined code, Finish at the marker, NextClass for the next read on the same stream), next to its declarative counterpart: Filter(full events, mask, declines), the layout offsets every phase must find the cursor at, and equality of event streams up to commutation of independent events (independence defined by slots, sections and scopes). TLC checks in every state of every run over abstract class files (2 fields, 2 methods with and without Code, nested Code attributes, record components, 3 attributes per table in three file orders), all single-flag-off, single-flag-on and pairwise masks over the flags that govern something of the shape, member visitors that report different interests (the visitors of the members with an even ordinal report a second mask: everything / nothing, code / no code, one flag of a member level apart, in both directions), all subsets of declined class / fields / methods / codes / record components, streams of 2-3 class files, and the three consumers (recording tree visitor, (), SimpleClassVisitor) that the cursor is where the layout puts the next item, never leaves the class, only moves back at the seek, ends at the end of the class file whatever was skipped, that the k-th read delivers the k-th class as the Filter of its full read, and that ClassFile::accept delivers the same events up to commutation and builds the same thing. Every explored run is replayed on a real class file of that shape (assembled with cfkit, attribute tables put into the shape's order) through duke::read_class_multi with the mask-configurable recording visitors of the harness, () and a SimpleClassVisitor, and through ClassFile::accept: event skeleton, bytes left over and positions are compared with the model's. On corpus (javac 8/11/17, JDK sample) and sample classes, seeded random masks, decline choices and concatenations are run through the real reader and replay; TLC re-judges the recorded streams (masked = Filter(full), consumed = file length, i-th read = i-th class at the sum of the lengths, replay = read up to commutation, rebuilt class = class built by the read).",
+    "level_text": "The visiting protocol of duke's class reader is specified as a machine with the stream cursor explicit (ReadHeader, ReadPool, SkipMembers remembering fields_start, one step per class attribute in file order - delivered if the visitor's interest flag is set, skipped by attribute_length otherwise, BootstrapMethods parsed regardless - SeekBack, one step per field / method with skip_attributes for a declined member and the Code body skipped for a declined code, Finish at the marker, NextClass for the next read on the same stream), next to its declarative counterpart: Filter(full events, mask, declines), the layout offsets every phase must find the cursor at, and equality of event streams up to commutation of independent events (independence defined by slots, sections and scopes). TLC checks in every state of every run over abstract class files (2 fields, 2 methods with and without Code, nested Code attributes, record components, 3 attributes per table in three file orders), all single-flag-off, single-flag-on and pairwise masks over the flags that govern something of the shape, member visitors that report different interests (the visitors of the members with an even ordinal report a second mask: everything / nothing, code / no code, one flag of a member level apart, in both directions), all subsets of declined class / fields / methods / codes / record components, streams of 2-3 class files, and the three consumers (recording tree visitor, (), SimpleClassVisitor) that the cursor is where the layout puts the next item, never leaves the class, only moves back at the seek, ends at the end of the class file whatever was skipped, that the k-th read delivers the k-th class as the Filter of its full read, and that ClassFile::accept delivers the same events up to commutation and builds the same thing. Every explored run is replayed on a real class file of that shape (assembled with cfkit, attribute tables put into the shape's order) through duke::read_class_multi with the mask-configurable recording visitors of the harness, () and a SimpleClassVisitor, and through ClassFile::accept: event skeleton, bytes left over and positions are compared with the model's. On corpus (javac 8/11/17, JDK sample) and sample classes, seeded random masks, decline choices and concatenations are run through the real reader and replay; TLC re-judges the recorded streams (masked = Filter(full), consumed = file length, i-th read = i-th class at the sum of the lengths, replay = read up to commutation, rebuilt class = class built by the read). Every accepted class is also replayed after an edit in memory that folds the rows of the LocalVariableTypeTable into the entries of the LocalVariableTable (one entry with descriptor and signature): the model states that the same items are delivered; shape D6 has both tables in one Code attribute, either first.",
     "level_note": "The full event list of a corpus class is the recording of the real full read (the reference of this property is the full read, so reader defects that do not depend on the visitor cancel out); the filter, the position arithmetic and the commutation check are evaluated in TLA+ on the recorded streams, the driver only records. Payloads are compared through canonical digests (Debug form of duke's values, labels as instruction positions, long digests hashed). Label definitions (visit_last_label, the label argument of visit_instruction) are not items: which positions carry a label depends on which attributes were parsed. The replay law is judged only for classes the tree can hold (no repeated attribute, no empty annotation list). Bounded: abstract shapes as listed; masks beyond pairs and classes beyond the shapes only in the random tier. Trusted: TLC, cfkit (assembler, parser for the attribute reordering, duke_to_facts for the tree comparison), the recording visitors. Known findings (declined code leaves the stream inside the Code attribute; reader ignores ClassInterests.fields / .methods; replay ignores CodeInterests.stack_map_table) are matched only when they explain a disagreement completely.",
     "assumptions": ["TLC/SANY/CommunityModules", "cfkit assembler/parser and duke_to_facts (harness)", "recording visitors of harness/src/drivers/c17_visitors.rs (event digests)",
                     "bounded universe: 3 (quick) / 4 (thorough) abstract shapes x 3 attribute orders; masks: all, none, one or two flags flipped among the flags relevant to the shape; all decline subsets (quick: up to two declined items, or all)",
